@@ -11,6 +11,9 @@ package udphop
 //           hops racing writers, readers, deadline/buffer setters, packet arrivals and Close.  Everything that
 //           happens at the socket boundary is appended to one log (one mutex, one sequence) which the Coq side
 //           replays through the LTS; the verdict of the property is also computed here, on the log alone.
+//           The fake sockets can be scripted to FAIL: Close() of chosen sockets returns an error (the socket is
+//           closed all the same, as close(2) does), chosen Set* calls return an error.  What must hold after Close()
+//           has returned does not depend on any of that.
 
 import (
 	"encoding/binary"
@@ -55,6 +58,9 @@ type c19Case struct {
 	Drain  bool    `json:"drain"` // read the queue empty before the final Close (if the conn is still open then)
 	NoEnd  bool    `json:"noend"` // the ops contain their own close; the main goroutine still closes (no-op) at End
 	Workers int    `json:"workers"`
+	CErr   []int   `json:"cerr"` // ids of the sockets whose Close() returns an error (the socket still gets closed)
+	SErr   []int   `json:"serr"` // ordinals (over the whole history) of the sockets' Set* calls that return an error
+	Blk    bool    `json:"blk"`  // park one more ReadFrom right before the final Close
 }
 
 func TestVerifC19(t *testing.T) {
@@ -381,6 +387,10 @@ func (c19Timeout) Error() string   { return "i/o timeout (fake)" }
 func (c19Timeout) Timeout() bool   { return true }
 func (c19Timeout) Temporary() bool { return true }
 
+type c19SockErr struct{}
+
+func (c19SockErr) Error() string { return "socket call failed (scripted)" }
+
 type c19In struct {
 	pkt     int64
 	timeout bool
@@ -393,8 +403,13 @@ type c19World struct {
 	socks    []*c19Sock
 	listens  int
 	fail     map[int]bool
+	cerr     map[int]bool // sockets whose Close() reports an error
+	serr     map[int]bool // ordinals of Set* calls that report an error
+	nsets    int
 	injMu    sync.Mutex
 	closeRet bool // some conn.Close() call has returned
+	lateListen bool // ListenUDPFunc was called after some conn.Close() call had returned
+	inRead   int  // ReadFrom calls entered (RS) and not yet returned (R)
 	nextPkt  int64
 	nextWr   int64
 	nextRid  int
@@ -472,12 +487,24 @@ func (s *c19Sock) Close() error {
 	s.closes++
 	was := s.open
 	s.open = false
-	w.ev("C", s.id)
+	// a failing Close still releases the socket (like close(2) reporting EIO): the call is counted and the socket is gone
+	inj := was && w.cerr[s.id]
+	w.ev("C", s.id, c19B(inj))
 	w.cond.Broadcast()
 	if !was {
 		return net.ErrClosed
 	}
+	if inj {
+		return c19SockErr{}
+	}
 	return nil
+}
+
+func c19B(b bool) int {
+	if b {
+		return 1
+	}
+	return 0
 }
 
 func (s *c19Sock) LocalAddr() net.Addr { return &net.UDPAddr{IP: net.IPv4(127, 0, 0, 1), Port: 10000 + s.id} }
@@ -493,9 +520,14 @@ func (s *c19Sock) set(kind string, v int64) error {
 	w := s.w
 	w.mu.Lock()
 	defer w.mu.Unlock()
-	w.ev("S", s.id, kind, v)
+	inj := w.serr[w.nsets]
+	w.nsets++
+	w.ev("S", s.id, kind, v, c19B(inj))
 	if !s.open {
 		return net.ErrClosed
+	}
+	if inj {
+		return c19SockErr{}
 	}
 	return nil
 }
@@ -510,6 +542,9 @@ func (w *c19World) listen() (net.PacketConn, error) {
 	defer w.mu.Unlock()
 	n := w.listens
 	w.listens++
+	if w.closeRet {
+		w.lateListen = true
+	}
 	if w.fail[n] {
 		w.ev("L", 0, -1)
 		return nil, errors.New("listen failed (scripted)")
@@ -603,10 +638,16 @@ func c19Hop(t *testing.T, c c19Case, res map[string]any) {
 		t.Fatalf("bad ports in hop case: %v", err)
 	}
 	ref, _ := c19Ref(c.Ports)
-	w := &c19World{fail: map[int]bool{}}
+	w := &c19World{fail: map[int]bool{}, cerr: map[int]bool{}, serr: map[int]bool{}}
 	w.cond = sync.NewCond(&w.mu)
 	for _, f := range c.Fail {
 		w.fail[f] = true
+	}
+	for _, f := range c.CErr {
+		w.cerr[f] = true
+	}
+	for _, f := range c.SErr {
+		w.serr[f] = true
 	}
 	drainedAll := false
 	bodyPanic := false
@@ -632,12 +673,27 @@ func c19Hop(t *testing.T, c c19Case, res map[string]any) {
 			}
 			u := pc.(*udpHopPacketConn)
 			var wg sync.WaitGroup
+			// shut the conn down by force if its own Close has not done so (hopLoop and blocked readers would
+			// otherwise keep the bubble alive for ever); reports whether that was necessary
+			forceShut := func() (forced bool) {
+				u.connMutex.Lock()
+				defer u.connMutex.Unlock()
+				select {
+				case <-u.closeChan:
+				default:
+					forced = true
+					close(u.closeChan)
+				}
+				u.closed = true
+				return forced
+			}
 			// a panic in the bubble's main goroutine becomes a verdict; everything is then shut down so the bubble can end
 			defer func() {
 				if r := recover(); r != nil {
 					fail("panic: " + fmt.Sprint(r))
 					bodyPanic = true
 					vCatch(func() { _ = u.Close() })
+					vCatch(func() { forceShut() })
 					w.mu.Lock()
 					for _, s := range w.socks {
 						s.open = false
@@ -683,10 +739,12 @@ func c19Hop(t *testing.T, c c19Case, res map[string]any) {
 				rid := w.nextRid
 				w.nextRid++
 				w.ev("RS", rid)
+				w.inRead++
 				w.mu.Unlock()
 				var b [64]byte
 				n, a, err := u.ReadFrom(b[:])
 				w.mu.Lock()
+				w.inRead--
 				switch {
 				case err == nil:
 					var id int64 = -1
@@ -734,9 +792,44 @@ func c19Hop(t *testing.T, c c19Case, res map[string]any) {
 						fail("second Close returned an error")
 						w.mu.Lock()
 					}
+				} else {
+					// the value returned by a Close that may have been the closing one (compared with the model's)
+					w.ev("CLR", c19B(err != nil))
 				}
 				w.closeRet = true
+				// Close has returned, whatever it returned and whatever the sockets' own Close calls reported:
+				// every socket ever opened is closed from here on
+				for _, s := range w.socks {
+					if s.open {
+						w.mu.Unlock()
+						fail("socket " + strconv.Itoa(s.id) + " still open after Close returned")
+						w.mu.Lock()
+						break
+					}
+				}
 				w.mu.Unlock()
+			}
+			// a ReadFrom that must not block (the conn is closed): made on a goroutine of its own so that a ReadFrom
+			// that does block becomes a verdict instead of a hang
+			readStuck := false
+			probeRead := func() {
+				if readStuck {
+					return
+				}
+				done := make(chan struct{})
+				wg.Add(1)
+				go func() {
+					defer wg.Done()
+					doRead()
+					close(done)
+				}()
+				synctest.Wait()
+				select {
+				case <-done:
+				default:
+					readStuck = true
+					fail("ReadFrom blocks after Close had returned")
+				}
 			}
 			tm := func(v int64) time.Time {
 				if v == 0 {
@@ -807,8 +900,25 @@ func c19Hop(t *testing.T, c c19Case, res map[string]any) {
 				w.snap(u, true)
 				drainedAll = true
 			}
+			if c.Blk && !w.closeRet {
+				// one more ReadFrom parked in its select (or served from the queue) when Close comes
+				wg.Add(1)
+				go func() {
+					defer wg.Done()
+					doRead()
+				}()
+				synctest.Wait()
+			}
 			doClose()
 			synctest.Wait()
+			// every ReadFrom that was blocked when Close came has been woken (all of them: they run one at a time)
+			w.mu.Lock()
+			parked := w.inRead
+			w.mu.Unlock()
+			if parked > 0 {
+				readStuck = true
+				fail("a ReadFrom blocked at the time of Close was not woken by Close")
+			}
 			w.snap(u, true)
 			listensBefore := w.listens
 			for i := 0; i < 2; i++ {
@@ -822,11 +932,26 @@ func c19Hop(t *testing.T, c c19Case, res map[string]any) {
 			}
 			for i := 0; i < 3; i++ {
 				doWrite()
-				doRead()
+				probeRead()
+			}
+			// no hop timer is left behind: let more than two full hop intervals pass on the fake clock
+			iv := time.Duration(c.Max)
+			if iv <= 0 {
+				iv = defaultHopInterval
+			}
+			time.Sleep(2*iv + time.Second)
+			synctest.Wait()
+			if w.listens != listensBefore {
+				fail("a hop timer fired after Close and called ListenUDPFunc")
 			}
 			doClose()
 			run(c19Op{Op: "rb", V: 777})
 			w.snap(u, true)
+			// a Close that returned without shutting the conn down leaves hopLoop and blocked readers behind: shut
+			// it down by force so that the bubble can end (the verdict is already negative by then)
+			if forceShut() {
+				fail("Close returned but ReadFrom and the hop timer were never told to stop")
+			}
 			wg.Wait()
 			synctest.Wait()
 			// final census; then release the receivers of any leaked socket so that the bubble can end
@@ -968,6 +1093,9 @@ func c19Hop(t *testing.T, c c19Case, res map[string]any) {
 			if drainedAll && len(readPk) != len(arrived) {
 				fail("a packet that arrived on an open socket was not delivered")
 			}
+		}
+		if w.lateListen {
+			fail("ListenUDPFunc called after Close had returned")
 		}
 		for id, sc := range census {
 			if sc[0] == 1 {
